@@ -243,6 +243,11 @@ def run(ctx: Ctx) -> None:
                         "that keeping it again replaces what every spelling serves")
     n11 = S.one_spelling_per_path(ctx, "C04.R11")
     rep.floor("C04.R11", n11, 1)
+    from .c16 import default_dirs_agree as _dda
+    rep.rule("C04.R13", "as C16.R12: the implicit default store and set_store('local') without directories are one store (same internal and data directories, in the same roles): what one "
+                        "commits the other serves")
+    n13 = _dda(ctx, v, "C04.R13")
+    rep.floor("C04.R13", n13, 2)
     if rep.prop == "C04":
         # the DBFS store: each documented commit type is accepted and does what it names (a commit type that silently commits nothing
         # leaves every kept path unresolvable), redirect records are written where they are read, ...
